@@ -14,12 +14,12 @@
    whose quantity is zero -- and nothing for an account that was closed (its positions are deleted) or for accounts
    other than assets and liabilities.
    Proofs: Proofs/CheckWriteBase.v, CheckWriteKeys.v, CheckWriteComplete.v, CheckWriteAccepted.v, CheckWriteSorted.v,
-   CheckWriteExec.v, CheckWriteWitness.v. *)
+   CheckWriteExec.v, CheckWriteText.v, CheckWriteWitness.v. *)
 From Coq Require Import ZArith List Bool Sorting.Sorted Permutation.
 From Knut Require Import Model.Str Model.Dec Model.Account Model.Ledger Model.Journal Model.Check Model.Cli
      Model.Source Model.CheckWrite Proofs.CheckLemmas Proofs.CheckProofs Proofs.DeterminismProofs Spec.WellformedSpec Spec.CheckWriteSpec
      Proofs.CheckMain Proofs.OrderCmd Proofs.CheckWriteBase Proofs.CheckWriteComplete Proofs.CheckWriteAccepted
-     Proofs.CheckWriteSorted Proofs.CheckWriteExec Proofs.CheckWriteWitness.
+     Proofs.CheckWriteSorted Proofs.CheckWriteExec Proofs.CheckWriteText Proofs.CheckWriteWitness.
 Import ListNotations.
 Open Scope Z_scope.
 
@@ -58,6 +58,20 @@ Theorem C04_write_accepted : forall sds,
             check_cmd_fixed (sds ++ map assertion_sdirective W) = COk tt.
 Proof. exact check_write_accepted. Qed.
 Print Assumptions C04_write_accepted.
+
+(* The text.  For a journal as the parser delivers it ([input_lex]: C09's hypothesis -- printable dates, lexable account
+   and commodity names) that the checker accepts: the printed text is read back by the model's parser
+   (C09_reparse_printed applied to the days of [write_file]) as balance assertions only; they are the collected
+   assertions with re-read quantities ([rq_w]: every quantity q replaced by of_string (to_string q), equal in value,
+   C09_reread); and the journal extended by what was read is accepted. *)
+Theorem C04_write_text_accepted : forall sds,
+  PrintLexInput.input_lex sds -> check_cmd_fixed sds = COk tt ->
+  exists W text ss W', check_write_assertions sds = COk W /\ check_write_cmd sds = COk text /\
+    ToModel.ToModelM.reparse text = MOk ss /\ assertions_only ss = Some W' /\
+    Permutation ss (map assertion_sdirective (map rq_w W)) /\
+    check_cmd_fixed (sds ++ ss) = COk tt.
+Proof. exact check_write_text_accepted. Qed.
+Print Assumptions C04_write_text_accepted.
 
 (* the same on model directives, with the specification's word for "accepted" *)
 Theorem C04_write_accepted_wellformed : forall ds W,
@@ -143,6 +157,10 @@ Example C04_write_example :
   (exists ss W', ToModel.ToModelM.reparse x_text = MOk ss /\ assertions_only ss = Some W' /\
                  check_cmd_fixed (x_sds ++ ss) = COk tt).
 Proof. exact write_example. Qed.
+
+(* ... and it satisfies the hypothesis of C04_write_text_accepted *)
+Example C04_write_example_input_lex : PrintLexInput.input_lex x_sds.
+Proof. exact x_sds_input_lex. Qed.
 
 (* the same directives in another order: the same bytes *)
 Example C04_write_example_permuted :
